@@ -693,7 +693,7 @@ func runC08(c *vf.Case) {
 func c08NumCases(tier string) int {
 	A := int(c08Alphabet)
 	if tier == "thorough" {
-		return A + A*A + A*A*A + A*A*A*A + 200000
+		return A + A*A + A*A*A + A*A*A*A + 2000000
 	}
 	return A + A*A + A*A*A + 3000
 }
